@@ -396,6 +396,32 @@ func corpus() []rescorr.Case {
 			a /a/r/output/c/o urn:a a
 			a /a/r/output/p urn:a a`,
 			`module a { namespace "urn:a"; prefix a; rpc r { output { container c { config true; leaf o { type string; } } leaf p { type string; } } } }`),
+		// a grouping with an action that spells out neither input nor output, used under a
+		// config-false container, a read-write container and in another module; a fourth module
+		// augments the unwritten input of each instantiation (every instantiation needs its own)
+		mk(`g /g urn:g g
+			a /a urn:a a
+			a /a/state urn:a a
+			a /a/state/clear urn:a a
+			a /a/state/clear/input -
+			a /a/state/clear/input/s-arg urn:b b
+			a /a/cfg urn:a a
+			a /a/cfg/clear urn:a a
+			a /a/cfg/clear/input -
+			a /a/cfg/clear/input/c-arg urn:b b
+			a2 /a2 urn:a2 a2
+			a2 /a2/other urn:a2 a2
+			a2 /a2/other/clear urn:a2 a2
+			a2 /a2/other/clear/output -
+			a2 /a2/other/clear/output/o-arg urn:b2 b2
+			b /b urn:b b
+			b2 /b2 urn:b2 b2`,
+			`module g { yang-version 1.1; namespace "urn:g"; prefix g; grouping ops { action clear; } }`,
+			`module a { yang-version 1.1; namespace "urn:a"; prefix a; import g { prefix g; } container state { config false; uses g:ops; } container cfg { uses g:ops; } }`,
+			`module a2 { yang-version 1.1; namespace "urn:a2"; prefix a2; import g { prefix g; } container other { uses g:ops; } }`,
+			`module b { yang-version 1.1; namespace "urn:b"; prefix b; import a { prefix a; }
+			   augment "/a:state/a:clear/a:input" { leaf s-arg { type string; } } augment "/a:cfg/a:clear/a:input" { leaf c-arg { type string; } } }`,
+			`module b2 { yang-version 1.1; namespace "urn:b2"; prefix b2; import a2 { prefix a2; } augment "/a2:other/a2:clear/a2:output" { leaf o-arg { type string; } } }`),
 		// augment from a submodule into another module, and into its own module
 		mk(`a /a urn:a a
 			a /a/c urn:a a
@@ -496,7 +522,7 @@ func main() {
 	cfg.BadRate = 0.08
 	mkCase := func(i int) (rescorr.Case, bool) {
 		if i < nA {
-			s := gen.GenerateC12(f.Rand(i), gen.C12Opts{OpsConfigRate: 0.12, TwoRevisions: i%8 == 7})
+			s := gen.GenerateC12(f.Rand(i), gen.C12Opts{OpsConfigRate: 0.12, TwoRevisions: i%8 == 7, SharedAction: i%10 == 3})
 			names, texts := s.Set.FilesRev()
 			c := rescorr.Case{Names: names, Texts: texts}
 			if s.Expect != nil {
